@@ -584,7 +584,7 @@ func run(sc scenario, viol func(key, id, msg string)) *result {
 
 func TestVerifC23(t *testing.T) {
 	r := vlib.Start(t, "C23")
-	n := r.N(1000, 20000)
+	n := r.N(1000, 15000)
 	if os.Getenv("VERIF_LIGHT") != "" {
 		n /= 10
 	}
